@@ -647,7 +647,11 @@ class SymStr:
         return self._case('upper')
 
     def capitalize(self):
-        raise Unsupported('capitalize on symbolic string')
+        if not self.ch:
+            return self.mk([])
+        first = type(self)(self.ch[:1]).upper()
+        rest = type(self)(self.ch[1:]).lower() if len(self.ch) > 1 else ''
+        return first + rest if not isinstance(first, str) or not isinstance(rest, str) else first + rest
 
     def _all_pred(self, name):
         if not self.ch:
